@@ -789,7 +789,7 @@ impl Check for C15 {
         "fault_enumeration"
     }
     fn rule(&self) -> String {
-        "for each base configuration (n in {2,3}, every leader, with / without constants and destinations) the undisturbed run is recorded; then cancel() is invoked on party p after the k-th event, for every k of the run (all states Init .. Executing, including 'cancel queued behind the internal run command' reached by cancelling while the compile job is parked, and, with individually explored MPC messages, every point of the MPC phase) and every p, replaying the base decisions around it; every point once after the system quiesced and once in the same step as the preceding event (burst: both commands queued back to back, which is the only way to meet state Running); a third of the runs additionally fail one run / consts RPC so that cancel has to stay synchronised with tasks that can still notify the destination. Oracle at the cancel-return event and at final quiescence: if cancel returned Ok the party's machine has stopped, a party with a destination was sent exactly one notification (Cancelled, or the real result if already sent) and none after the cancel returned, and its permits are all available; no task panics; a cancel call that never returns is a violation. distinct = (configuration, party, k)".into()
+        "for each base configuration (n in {2,3}, every leader, with / without constants and destinations) the undisturbed run is recorded; then cancel() is invoked on party p after the k-th event, for every k of the run (all states Init .. Executing, including 'cancel queued behind the internal run command' reached by cancelling while the compile job is parked, and, with individually explored MPC messages, every point of the MPC phase) and every p, replaying the base decisions around it; every point once after the system quiesced and once in the same step as the preceding event (burst: both commands queued back to back, which is the only way to meet state Running); a third of the runs additionally fail one run / consts RPC so that cancel has to stay synchronised with tasks that can still notify the destination, another third deliver one run request twice (a retrying client; the copy is refused) before the cancel. Oracle at the cancel-return event and at final quiescence: if cancel returned Ok the party's machine has stopped, a party with a destination was sent exactly one notification (Cancelled, or the real result if already sent) and none after the cancel returned, and its permits are all available; no task panics; a cancel call that never returns is a violation. distinct = (configuration, party, k)".into()
     }
     fn assumptions(&self) -> Vec<String> {
         vec!["single-threaded runtime only (DESIGN.md section 3); output deliveries are atomic".into(), "what the other parties do after a peer cancelled is not judged".into()]
@@ -889,6 +889,14 @@ impl Check for C15 {
                         nth: 0,
                         verdict: if i % 5 < 3 { Verdict::FailBefore } else { Verdict::FailAfter },
                     });
+                }
+                // in another share a run request of this computation is delivered twice (a retrying
+                // client): the second copy is refused, and cancel must still find the party's real state
+                if i % 3 == 1 {
+                    let leader = base.policies[0].leader;
+                    let tos: Vec<usize> = (0..n).filter(|q| *q != leader).collect();
+                    s.faults.push(RpcFault { kind: "run".into(), from: leader, to: tos[(i as usize / 3) % tos.len()], comp: 1, nth: 0, verdict: Verdict::Duplicate });
+                    out.count("cancel_combined_with_a_duplicated_run_request", 1);
                 }
                 cx.begin(&serde_json::to_value(&s).unwrap());
                 let run = server::run(&s);
